@@ -17,36 +17,42 @@ def axes_to_rotator(z: ArrayLike | None, y: ArrayLike) -> Rotation:
     else:
         z0 = _extract_orthogonal(y0, _normalize(np.atleast_2d(z)))
     z0_trans = rot_y.apply(z0, inverse=True)
-    rot_z = _get_align_rotator([[1, 0, 0]], z0_trans)
+    # z0_trans is orthogonal to the y-axis, so the second rotation must be around the
+    # y-axis to keep the aligned y-axis in place (also when it is a 180-degree turn).
+    theta = np.arctan2(-z0_trans[:, 2], z0_trans[:, 0])
+    rotvec_z = np.stack([np.zeros_like(theta), theta, np.zeros_like(theta)], axis=1)
+    rot_z = Rotation.from_rotvec(rotvec_z)
     return rot_y * rot_z
 
 
 def _get_align_rotator(src, dst) -> Rotation:
-    """R.apply(src) == dst. Both length must be 1."""
-    if np.all(np.abs(src + dst) < 1e-6):
-        # Cross product cannot be used for antiparallel vectors.
-        dst = np.atleast_2d(dst)
+    """R.apply(src) == dst, determined row by row."""
+    dst = np.atleast_2d(np.asarray(dst, dtype=np.float64))
+    src = np.broadcast_to(np.atleast_2d(np.asarray(src, dtype=np.float64)), dst.shape)
+    cross = np.cross(src, dst)
+    sin = np.sqrt(np.sum(cross**2, axis=1, keepdims=True))
+    cos = np.sum(src * dst, axis=1, keepdims=True)
+    theta = np.arctan2(sin, cos)
+    norm = np.where(sin > 0, sin, np.inf)
+    rotvec = cross / norm * theta
+
+    # Cross product cannot be used for antiparallel vectors.
+    antiparallel = np.all(np.abs(src + dst) < 1e-6, axis=1)
+    if np.any(antiparallel):
+        _dst = dst[antiparallel]
+        _zeros = np.zeros(_dst.shape[0])
         # both rotvec_0 and rotvec_1 are orthogonal to dst.
-        rotvec_0 = np.stack([dst[:, 1], -dst[:, 0], np.zeros(dst.shape[0])], axis=1)
-        rotvec_1 = np.stack([dst[:, 2], np.zeros(dst.shape[0]), -dst[:, 0]], axis=1)
-        rotvec = np.where(
+        rotvec_0 = np.stack([_dst[:, 1], -_dst[:, 0], _zeros], axis=1)
+        rotvec_1 = np.stack([_dst[:, 2], _zeros, -_dst[:, 0]], axis=1)
+        axis = np.where(
             np.linalg.norm(rotvec_0, axis=1, keepdims=True)
             > np.linalg.norm(rotvec_1, axis=1, keepdims=True),
             rotvec_0,
             rotvec_1,
         )
-        rotvec /= np.linalg.norm(rotvec, axis=1, keepdims=True)
-        return Rotation.from_rotvec(rotvec * np.pi)
-    elif np.all(np.abs(src - dst) < 1e-6):
-        dst = np.atleast_2d(dst)
-        return Rotation.identity(dst.shape[0])
-    cross = np.cross(src, dst)
-    sin = norm = np.sqrt(np.sum(cross**2, axis=1, keepdims=True))
-    cos = np.sum(src * dst, axis=1, keepdims=True)
-    theta = np.arctan2(sin, cos)
-
-    norm[norm == 0] = np.inf
-    return Rotation.from_rotvec(cross / norm * theta)
+        axis /= np.linalg.norm(axis, axis=1, keepdims=True)
+        rotvec[antiparallel] = axis * np.pi
+    return Rotation.from_rotvec(rotvec)
 
 
 def from_euler_xyz_coords(
